@@ -239,7 +239,7 @@ class FileInfo:
             raise AnalysisError(f"{rel}: does not parse: {e}")
         from .canon import canonicalise
 
-        self.tree = canonicalise(self.tree)
+        self.tree = canonicalise(self.tree, rel)
         if rel.endswith("__init__.py"):
             self.module = os.path.dirname(rel).replace("/", ".")
         else:
